@@ -1090,8 +1090,12 @@ def trlog(T, check=True, twist=False):
                 S = trlog(R, check=False)  # recurse
                 w = base.vex(S)
                 theta = base.norm(w)
-                Ginv = np.eye(3) - S / 2 + (1 / theta - 1 / math.tan(theta / 2) / 2) / theta * S @ S
-                v = Ginv @ t
+                if theta == 0:
+                    # the rotation part is the identity to within round-off
+                    v = t
+                else:
+                    Ginv = np.eye(3) - S / 2 + (1 / theta - 1 / math.tan(theta / 2) / 2) / theta * S @ S
+                    v = Ginv @ t
                 if twist:
                     return np.r_[v, w]
                 else:
@@ -1117,8 +1121,9 @@ def trlog(T, check=True, twist=False):
             c = (np.trace(R) - 1) / 2
             theta = math.atan2(s, c)
             if c > -0.5:
-                # axis from the skew-symmetric part
-                w = sw * (theta / s)
+                # axis from the skew-symmetric part (which is exactly zero for a
+                # matrix that differs from the identity by symmetric round-off only)
+                w = sw * (theta / s) if s > 0 else np.zeros((3,))
             else:
                 # near a half turn the skew-symmetric part vanishes, take the
                 # axis from the symmetric part cos(theta) I + (1 - cos(theta)) a a'
